@@ -2,6 +2,7 @@
   C02 — the V2 packet codec interoperates: every frame and device id round-trips against an
   independent implementation of the format, in both directions.
 -/
+import Msmart.Lemmas.CodecEqLan
 import Msmart.Lemmas.V2
 
 set_option linter.unusedSimpArgs false
@@ -145,5 +146,27 @@ theorem encode_overflow (frame ts : Bytes) (id : Nat)
 example : packetDecode (Spec.V2.encode 0x123456789ABC (Py.zeros 8) (Py.zeros 12) [0xAA, 0x0B, 0xAC]) =
     .ok [0xAA, 0x0B, 0xAC] :=
   v2_decode_spec_encode _ _ _ _ rfl rfl (by rw [encryptAes_length]; decide)
+
+
+/-! ### the same statements about the code as translated from the source text (tie by translation, §3.1b) -/
+
+theorem packetEncodeI_nat (id : Nat) (ts frame : Bytes) :
+    packetEncodeI (id : Int) ts frame = packetEncode id ts frame := by
+  unfold packetEncodeI packetEncode overflow
+  split
+  · rfl
+  · rw [if_neg (by omega), Int.toNat_natCast]
+
+/-- **C02 (→) about the translated `_Packet.encode`** (`Generated/Codec.lean`, regenerated from lan.py on every run). -/
+theorem v2_spec_decodes_encode_code (frame ts : Bytes) (id : Nat) (hts : ts.length = 8) (hid : id < 2 ^ 64)
+    (hlen : 56 + (encryptAes frame).length < 65536) :
+    ∃ p, Generated.Codec.packetEncode (id : Int) frame ts = .ok p ∧ Spec.V2.decode p = some (id, frame) := by
+  rw [CodecEq.packetEncode_eq, packetEncodeI_nat]; exact v2_spec_decodes_encode frame ts id hts hid hlen
+
+/-- **C02 (←) about the translated `_Packet.decode`.** -/
+theorem v2_decode_spec_encode_code (frame ts filler : Bytes) (id : Nat) (hts : ts.length = 8)
+    (hfl : filler.length = 12) (hlen : 56 + (encryptAes frame).length < 65536) :
+    Generated.Codec.packetDecode (Spec.V2.encode id ts filler frame) = .ok frame := by
+  rw [CodecEq.packetDecode_eq]; exact v2_decode_spec_encode frame ts filler id hts hfl hlen
 
 end Msmart.Props.C02
